@@ -178,6 +178,7 @@ static PSymbolStack FirstStack;
 static PCToken      MomSection;
 static char*        LastGlobSymbol;
 static PFunction    FirstFunction; /* Liste definierter Funktionen */
+static LongInt      FuncNestLevel; /* nesting depth of user-defined function calls */
 
 void AsmParsInit(void) {
     FirstSymbol = NULL;
@@ -1544,7 +1545,13 @@ void EvalStrExpression(tStrComp const* pExpr, TempResult* pErg) {
                 LEAVE2;
             }
             StrCompMkTemp(&CompArg, CompArgStr.p_str, CompArgStr.capacity);
+            if ((NestMax > 0) && (FuncNestLevel >= NestMax)) {
+                WrError(ErrNum_RekMacro);
+                LEAVE2;
+            }
+            FuncNestLevel++;
             EvalStrExpression(&CompArg, pErg);
+            FuncNestLevel--;
             pErg->Flags |= PromotedFlags;
             pErg->AddrSpaceMask |= PromotedAddrSpaceMask;
             if (pErg->DataSize == eSymbolSizeUnknown) {
